@@ -1,6 +1,7 @@
 """C02 — every record type's wire form round-trips and re-encodes byte-identically."""
 
 import io
+import pickle
 
 import dns.exception
 import dns.name
@@ -86,7 +87,7 @@ def describe(val):
 def check_roundtrip(ctx, val, origin):
     """val: GR.Val; origin: labels or None"""
     ctx.count("evaluations")
-    case = {"kind": "rt", "type": val.tname, "rdtype": val.rdtype, "rdclass": val.rdclass, "origin": list(origin) if origin else None, "seedinfo": describe(val)}
+    case = {"kind": "rt", "type": val.tname, "rdtype": val.rdtype, "rdclass": val.rdclass, "origin": list(origin) if origin else None, "seedinfo": describe(val), "pickle": pickle.dumps((val, origin)).hex()}
     t = val.tname
     try:
         rd = GR.build(val)
@@ -360,6 +361,10 @@ def replay(case, ctx):
         if case["kind"] == "hostile":
             check_hostile(ctx, spy, case["rdclass"], case["rdtype"], case["type"], case["data"], "replay")
         else:
+            if case.get("pickle"):
+                val, origin = pickle.loads(bytes.fromhex(case["pickle"]))
+                check_roundtrip(ctx, val, origin)
+                return
             # round-trip witnesses replay from the reference wire: decode, compare re-encoding
             w = case.get("wire")
             if w is None:
